@@ -10,7 +10,7 @@ META = dict(
            "pairings {RB-RB, moving Frame-RB, RB-moving Frame, RB-PM / PM-RB (Spherical, FixedDistance)} with seeded concrete joint placements "
            "(r_OJ0, A_IJ0, initial poses); inside a configuration the state (t, q, u, u_dot, lambda) and the direction dq are symbolic: all reals, "
            "non-unit quaternions and states violating the joint included.  'satisfied where defined' with symbolic initial poses.  quick: one axis "
-           "per joint type; thorough: all axes and pairings.  Outside: n-point interaction, rod cross-section pairings.",
+           "per joint type; thorough: all axes and pairings.  Rod cross-section pairings: end node (xi = 1 / 0) of a one-element quaternion (thorough: R12) rod with a seeded curved reference.  Outside: n-point interaction, joints at interior xi of a rod element, SE3 rods.",
     assumptions=["quaternion parts nonzero", "frame motion family of checks.lib.Motion (free position/velocity/acceleration; orientation A0 Rz(theta(t)) in the quick tier, A0 Rx(alpha(t)) Rz(theta(t)) in the thorough tier)",
                  "concrete joint placements are seeded floats (exact rationals in the encoding)"],
     trusted_base=[],
@@ -35,20 +35,29 @@ def build(h, joint, pairing, axis, seed, two_axes=True):
             return lib.make_frame(h, rng, name, moving=True, two_axes=two_axes)[0]
         if kind == "F0":
             return lib.make_frame(h, rng, name, moving=False)[0]
+        if kind in ("ROD", "RODR12"):
+            # real Cosserat rod (one linear element, seeded curved reference); the joint sits on the end cross-section (a node:
+            # the Petrov-Galerkin rods interpolate velocities independently inside an element, see C11)
+            rod = lib.make_rod(h, interp="Quaternion" if kind == "ROD" else "R12", p=1, nel=1, Q="curved", seed=seed, assemble=False)[0]
+            rod.name = name
+            return rod
         raise ValueError(kind)
     a, b = mk(s1, "a"), mk(s2, "b")
+    xi = dict(xi1=1.0) if s1.startswith("ROD") else {}
+    if s2.startswith("ROD"):
+        xi["xi2"] = 0.0
     r_OJ0 = np.round(rng.normal(size=3) * 8) / 8
     A_IJ0 = Exp_SO3_quat(lib.rnd_unit_quat(rng))
     J = getattr(C, joint)
     if joint == "FixedDistance":
         j = J(a, b, B1_r_P1J1=np.round(rng.normal(size=3) * 8) / 8 if s1 != "PM" else np.zeros(3),
-              B2_r_P2J2=np.round(rng.normal(size=3) * 8) / 8 if s2 != "PM" else np.zeros(3))
+              B2_r_P2J2=np.round(rng.normal(size=3) * 8) / 8 if s2 != "PM" else np.zeros(3), **xi)
     elif joint == "Spherical":
-        j = J(a, b, r_OJ0=r_OJ0)
+        j = J(a, b, r_OJ0=r_OJ0, **xi)
     elif joint == "RigidConnection":
-        j = J(a, b)
+        j = J(a, b, **xi)
     else:
-        j = J(a, b, axis=axis, r_OJ0=r_OJ0, A_IJ0=A_IJ0)
+        j = J(a, b, axis=axis, r_OJ0=r_OJ0, A_IJ0=A_IJ0, **xi)
     sysm = System()
     sysm.add(a, b, j)
     try:
@@ -114,11 +123,13 @@ def defined_case(h, joint="Revolute", pairing="RB-RB", axis=0, seed=0):
 
 
 def pairings_for(joint, tier):
+    # rod cross-section pairings: quaternion rod end node against a rigid body (quick: one per joint family), R12 rod and
+    # rigid body -> rod start node in the thorough tier
     if joint in ("Spherical", "FixedDistance"):
-        return ["RB-RB", "RB-PM", "F-RB"] if tier == "quick" else ["RB-RB", "RB-PM", "PM-RB", "PM-PM", "F-RB", "RB-F", "F-PM"]
+        return ["RB-RB", "RB-PM", "F-RB", "ROD-RB"] if tier == "quick" else ["RB-RB", "RB-PM", "PM-RB", "PM-PM", "F-RB", "RB-F", "F-PM", "ROD-RB", "RB-ROD", "RODR12-RB"]
     if tier == "quick":
-        return ["RB-RB"] + (["F-RB"] if joint in ("Revolute", "Prismatic") else [])
-    return ["RB-RB", "F-RB", "RB-F"]
+        return ["RB-RB"] + (["F-RB"] if joint in ("Revolute", "Prismatic") else []) + (["ROD-RB"] if joint in ("Revolute", "RigidConnection", "Cylindrical") else [])
+    return ["RB-RB", "F-RB", "RB-F", "ROD-RB", "RB-ROD", "RODR12-RB"]
 
 
 LEVELS = [("vel",), ("acc",), ("g_q",), ("g_dot_q",), ("Wla_g_q",)]
